@@ -15,17 +15,31 @@ def make_cadence(c):
     for k, f in enumerate(c["frames"]):
         fr = stg.Frame(fchans=c["F"], tchans=f["T"], df=c["df"], dt=c["dt"], fch1=c["fch1"], ascending=c["ascending"], t_start=f["t_start"], seed=k)
         frames.append(fr)
+    kw = dict(t_slew=c.get("t_slew", 0), t_overwrite=bool(c.get("t_overwrite")))
     if c.get("ordered"):
-        cad = stg.OrderedCadence(frames, order=c.get("order", "ABACAD"))
+        cad = stg.OrderedCadence(frames, order=c.get("order", "ABACAD"), **kw)
     else:
-        cad = stg.Cadence(frames)
+        cad = stg.Cadence(frames, **kw)
     return cad
 
 
-def sig_args(c, fr0, raise_at=None):
+def subset(cad, c):
+    if c.get("slice"):
+        sl = c["slice"]
+        return cad[slice(sl[0], sl[1], sl[2] if len(sl) > 2 else None)]
+    if c.get("index"):
+        return cad[list(c["index"])]
+    if c.get("label"):
+        return cad.by_label(c["label"])
+    return cad
+
+
+def sig_args(c, fr0, raise_at=None, offset=None):
+    """offset: evaluate path / time profile at t + offset (the property's statement for frame m), on an unshifted frame"""
     s = c["signal"]
     f_start = fr0.get_frequency(s["start_ch"])
-    path = stg.constant_path(f_start=f_start, drift_rate=s["drift"])
+    path0 = stg.constant_path(f_start=f_start, drift_rate=s["drift"])
+    path = path0 if offset is None else (lambda t: path0(t + offset))
     calls = {"n": 0}
     if s["tprof"] == "sine":
         base = stg.sine_t_profile(period=s["period"], amplitude=1.0, level=3.0)
@@ -37,7 +51,7 @@ def sig_args(c, fr0, raise_at=None):
             calls["n"] += 1
             raise Boom("callback failed on frame %d" % raise_at)
         calls["n"] += 1
-        return base(t)
+        return base(t if offset is None else t + offset)
     kw = dict(path=path, t_profile=tprof, f_profile=stg.box_f_profile(width=s["width"]), bp_profile=stg.constant_bp_profile(level=1),
               integrate_path=s.get("integrate_path", False), integrate_t_profile=s.get("integrate_t", False), doppler_smearing=s.get("smear", False),
               t_subsamples=4, smearing_subsamples=4)
@@ -47,13 +61,14 @@ def sig_args(c, fr0, raise_at=None):
 def run_case(c):
     out = dict(fails=[])
     cad = make_cadence(c)
-    sub = cad
-    if c.get("slice"):
-        sub = cad[c["slice"][0]:c["slice"][1]]
-    elif c.get("label"):
-        sub = cad.by_label(c["label"])
+    starts_before = [fr.t_start for fr in cad]
+    sub = subset(cad, c)
     if len(sub) == 0:
         return dict(fails=[], empty=True)
+    if [fr.t_start for fr in cad] != starts_before:
+        moved = [(k, fr.t_start - t) for k, (fr, t) in enumerate(zip(cad, starts_before)) if fr.t_start != t]
+        out["fails"].append(["subset-moves-start-times", "selecting %s from the cadence moved the start times of its frames: %s" % (
+            c.get("slice") or c.get("index") or c.get("label"), moved[:3])])
     ts_before = [fr.ts.copy() for fr in sub]
     ids_before = [id(fr.ts) for fr in sub]
     t0 = sub[0].t_start
@@ -61,16 +76,18 @@ def run_case(c):
     refs = []
     for fr in sub:
         f2 = stg.Frame(fchans=c["F"], tchans=fr.tchans, df=c["df"], dt=c["dt"], fch1=c["fch1"], ascending=c["ascending"], t_start=fr.t_start)
-        f2.ts = f2.ts + (fr.t_start - t0)
         with np.errstate(all="ignore"):
-            f2.add_signal(**sig_args(c, sub[0]))
+            f2.add_signal(**sig_args(c, sub[0], offset=(fr.t_start - t0)))
         refs.append(f2.data.copy())
     for rep in range(c.get("repeat", 1)):
         with np.errstate(all="ignore"):
             sub.add_signal(**sig_args(c, sub[0]))
     for m, (fr, ref) in enumerate(zip(sub, refs)):
-        if not np.array_equal(fr.data, ref * c.get("repeat", 1)) and not np.allclose(fr.data, ref * c.get("repeat", 1), rtol=1e-12, atol=0):
-            out["fails"].append(["offset", "frame %d: injected data differ from single-frame injection at times shifted by t_start - cadence t_start (%r s)" % (m, fr.t_start - t0)])
+        if not np.array_equal(fr.data, ref * c.get("repeat", 1)) and not np.allclose(fr.data, ref * c.get("repeat", 1), rtol=1e-9, atol=1e-9):
+            o = c["signal"]
+            out["fails"].append(["offset", "frame %d: injected data differ from single-frame injection with path and time profile evaluated at t + (t_start - cadence t_start) = t + %r s "
+                                 "(max diff %g; integrate_path=%s integrate_t=%s smear=%s)" % (m, fr.t_start - t0, float(np.max(np.abs(fr.data - ref * c.get("repeat", 1)))),
+                                                                                         o.get("integrate_path"), o.get("integrate_t"), o.get("smear"))])
             break
     for m, (fr, tb) in enumerate(zip(sub, ts_before)):
         if not np.array_equal(fr.ts, tb):
@@ -79,7 +96,7 @@ def run_case(c):
     # raising callback on the k-th frame, for every k
     for k in range(len(sub)):
         cad2 = make_cadence(c)
-        sub2 = cad2[c["slice"][0]:c["slice"][1]] if c.get("slice") else (cad2.by_label(c["label"]) if c.get("label") else cad2)
+        sub2 = subset(cad2, c)
         tb2 = [fr.ts.copy() for fr in sub2]
         raised = False
         try:
@@ -95,7 +112,11 @@ def run_case(c):
             out["fails"].append(["ts-after-raise", "callback raised on frame %d: frame %d's time axis is left shifted by %g s" % (k, m, float(np.max(np.abs(sub2[m].ts - tb2[m]))))])
             break
     # overwrite_times / slew_times / consolidate
-    cad3 = make_cadence(c)
+    if c.get("t_overwrite") and len(cad) > 1:
+        sl0 = cad.slew_times
+        if not np.allclose(sl0, c["t_slew"], rtol=0, atol=1e-6):
+            out["fails"].append(["slew-after-injection", "cadence built with t_overwrite: slew times after selecting / injecting are %s, expected %r" % (sl0.tolist()[:5], c["t_slew"])])
+    cad3 = make_cadence(dict(c, t_overwrite=False))
     cad3.t_slew = c["t_slew"]
     cad3.overwrite_times()
     sl = cad3.slew_times
